@@ -514,9 +514,79 @@ def rule_selector_assignment(prog, fixture=False):
     return r
 
 
+# ---------------------------------------------------------------- R-C15-5
+def rule_lookup_keeps_hit(prog, fixture=False):
+    r = RuleResult("R-C15-5", "a lookup that tries several places (catalogue fragments) keeps the first hit: an optional "
+                   "that the function returns is assigned inside a loop only where it is known to be empty - otherwise a "
+                   "miss in a later fragment replaces the hit and the file is reported `not found`", floor=0)
+    for fn in prog.functions.values():
+        if fn.body is None:
+            continue
+        returned = set()
+        for n in fn.walk():
+            if n.get("k") == "ReturnStmt" and n.get("c"):
+                x = strip_all(n["c"][0])
+                for _ in range(3):
+                    if x is not None and x.get("k") in ("CXXConstructExpr", "CXXTemporaryObjectExpr") and len(x.get("c", [])) == 1:
+                        x = strip_all(x["c"][0])
+                if x is not None and x.get("k") == "DeclRefExpr" and x.get("dk") == "Var" and "optional" in (x.get("t") or x.get("ct") or ""):
+                    returned.add(x["d"])
+        for d in returned:
+            sites = []
+            for n in fn.walk():
+                if n.get("k") == "CXXOperatorCallExpr" and n.get("op") == "=" and len(n.get("c", [])) == 3 and \
+                        (strip_all(n["c"][1]) or {}).get("d") == d and \
+                        any(a.get("k") in ("ForStmt", "WhileStmt", "DoStmt", "CXXForRangeStmt") for a in fn.ancestors(n)):
+                    rhs = strip_all(n["c"][2])
+                    if not (rhs is not None and rhs.get("k") == "DeclRefExpr" and rhs.get("n") == "nullopt"):
+                        sites.append(n)
+            if not sites:
+                continue
+
+            def transfer(x, d=d):
+                if x.get("k") == "DeclStmt":
+                    for v in x.get("c", []):
+                        if v.get("k") == "VarDecl" and v.get("d") == d:
+                            i = strip_all(v["c"][0]) if v.get("c") else None
+                            return i is None or (i.get("k") in ("CXXConstructExpr",) and not i.get("c")) or \
+                                (i.get("k") == "DeclRefExpr" and i.get("n") == "nullopt")
+                if x.get("k") == "CXXOperatorCallExpr" and x.get("op") == "=" and len(x.get("c", [])) == 3 and \
+                        (strip_all(x["c"][1]) or {}).get("d") == d:
+                    rhs = strip_all(x["c"][2])
+                    return bool(rhs is not None and rhs.get("k") == "DeclRefExpr" and rhs.get("n") == "nullopt")
+                if x.get("k") == "CXXMemberCallExpr" and (strip(x["c"][0]) or {}).get("n") in ("reset", "emplace") and \
+                        (strip_all((strip(x["c"][0]) or {}).get("c", [None])[0]) or {}).get("d") == d:
+                    return (strip(x["c"][0]) or {}).get("n") == "reset"
+                return None
+            cfg = fn.cfg
+
+            def edge_gen(p_, s_, d=d):
+                b = cfg.blocks[p_]
+                if b.get("cond") is None or len(cfg.succ[p_]) != 2 or cfg.succ[p_][0] == cfg.succ[p_][1]:
+                    return False
+                cond = fn.nodes.get(b["cond"])
+                cs = strip_all(cond)
+                if cs is not None and cs.get("k") == "BinaryOperator" and cs.get("op") in ("&&", "||"):
+                    cond = cs["c"][1]
+                outcome = cfg.succ[p_][0] == s_
+                for f in flow.atomise(cond, outcome):
+                    if f[0] == "T" and f[2] is False and (strip_all(f[1]) or {}).get("d") == d:
+                        return True
+                return False
+            at = flow.must_hold_at(fn, transfer, edge_gen)
+            for i, n in enumerate(sites):
+                ok = at(n)
+                if ok is None:
+                    continue
+                key = "%s::%s::%s=#%d" % (fn.relfile(), fn.qn, (strip_all(n["c"][1]) or {}).get("n"), i + 1)
+                r.add(key, fn.loc(n), bool(ok), "assigned only while empty" if ok else
+                      "`%s` may replace a result already found by the result of a later, unsuccessful attempt" % show(n)[:60])
+    return r
+
+
 def run(ctx):
     prog = ctx.prog("dfs", "N")
-    return [rule_translation(prog), rule_canonical_patterns(prog), rule_name_comparison(prog), rule_selector_assignment(prog)]
+    return [rule_translation(prog), rule_canonical_patterns(prog), rule_name_comparison(prog), rule_selector_assignment(prog), rule_lookup_keeps_hit(prog)]
 
 
 SELFTESTS = [
